@@ -585,6 +585,16 @@ def run(rep, tier, seed):
     if tier == "thorough":
         cases += [[a, b] for a in rng.sample(single, 60) for b in rng.sample(single, 60)
                   if a[1] != b[1] and a[1].partition(".")[0] != b[1].partition(".")[0]]
+    # the same name configured in two forms (bare and .local, .local and .local.): one mDNS answer for the name, but each form has its
+    # own OS-resolver answer; every form is looked up on its own account, results in the order of the configured addresses
+    forms = {f: (f, t, l) for f, t, l in HOST_FORMS}
+    for fa, fb in (("bare", "local"), ("local", "bare"), ("local", "localdot"), ("bare", "localdot")):
+        for mk, m6, m4 in MDNS:
+            md = None if mk == "err" else (m6, m4)
+            for _oa, ola in OS:
+                for _ob, olb in OS:
+                    olb2 = [x + 4 for x in olb] if olb else olb      # other addresses than the first form's
+                    cases.append([forms[fa] + (md, ola), forms[fb] + (md, olb2)])
     n = 300 if tier == "quick" else 3000
     for _ in range(n):
         k = rng.choice([2, 2, 3, 4])
